@@ -25,6 +25,7 @@ class Knobs:
         self.nested_targets = 0.3    # bias towards targets nested in orthogonal regions / history
         self.flags = 4               # number of boolean context flags v0..vk used by guards
         self.cflags = 3              # c0..ck used by contract conditions
+        self.no_state_names = False  # code never mentions state names (C17)
         self.avoid_nondet = True     # transitions of one state on one event get distinct priorities
         self.history_focus = 0.0     # probability, per history state, of adding leave / come-back transitions
         self.__dict__.update(kw)
@@ -94,8 +95,10 @@ class ChartGen:
                              'event.v <= x'])
         if k.flags and c < 0.8:
             return r.choice(['v%d', 'not v%d', 'v%d']) % r.randrange(k.flags)
-        return r.choice(['x % 2 == 0', 'x > y', 'x < 5', "active('%s')" % r.choice(self.names),
-                         'y % 3 != 1'])
+        opts = ['x % 2 == 0', 'x > y', 'x < 5', 'y % 3 != 1']
+        if not k.no_state_names:
+            opts.append("active('%s')" % r.choice(self.names))
+        return r.choice(opts)
 
     def cond_code(self, post):
         r, k = self.r, self.k
@@ -111,7 +114,10 @@ class ChartGen:
                              "received('e') or True"])
         if post and c < 0.85:
             return r.choice(['after(0)', 'idle(0)'])
-        return r.choice(['x >= 0', 'x + 1 > x', "active('%s') or True" % r.choice(self.names)])
+        opts = ['x >= 0', 'x + 1 > x']
+        if not k.no_state_names:
+            opts.append("active('%s') or True" % r.choice(self.names))
+        return r.choice(opts)
 
     def contracts(self, obj):
         r, k = self.r, self.k
